@@ -291,6 +291,13 @@ main(void)
 			snprintf(pfx, sizeof(pfx), "noaio");
 		} else if (strcmp(op, "tmo") == 0) {
 			nng_aio_set_timeout(aios[k], (nng_duration) atoi(tok[2]));
+		} else if (strcmp(op, "expire") == 0) {
+			// an absolute expiry, given relative to the clock of this instant (the clock runs on real time)
+			nng_aio_set_expire(aios[k], (nng_time) ((int64_t) nng_clock() + atoll(tok[2])));
+		} else if (strcmp(op, "expnever") == 0) {
+			nng_aio_set_expire(aios[k], NNI_TIME_NEVER);
+		} else if (strcmp(op, "norm") == 0) {
+			nni_aio_normalize_timeout(aios[k], (nng_duration) atoi(tok[2]));
 		} else if ((strcmp(op, "begin") == 0 || strcmp(op, "sleep") == 0) && (n_sub[k] != n_cb[k])) {
 			snprintf(pfx, sizeof(pfx), "busy"); // the user's contract: one operation at a time
 		} else if (strcmp(op, "begin") == 0) {
